@@ -101,8 +101,41 @@ def _meta_from_array(x, ndim=None, dtype=None):
     from dask_array._utils import meta_from_array
 
     if isinstance(x, SArr):
+        x[tuple(slice(0, 0, None) for _ in range(x.ndim))]  # the selection the real function requests (empty; noted under C29)
         return np.empty((0,) * (x.ndim if ndim is None else ndim), dtype=dtype or x.dtype)
     return meta_from_array(x, ndim=ndim, dtype=dtype)
+
+
+class RecArr(SArr):
+    """a source array that notes every selection requested from it while RECORDING is on (C29)"""
+
+    reads = []
+
+    def __getitem__(self, index):
+        out = SArr.__getitem__(self, index)
+        if RECORDING[0]:
+            RecArr.reads.append(("source " + str(getattr(self, "_symx_token", "?")), tuple(out.shape)))
+        return out
+
+
+RECORDING = [False]   # on while a program is being constructed / inspected / optimized (not while its graph is executed)
+CALLS = []            # (function name, shapes of its array arguments) of user block functions called while RECORDING
+
+
+def user_kernel(f):
+    """mark a harness function as the user's block function (the graph runner calls it on symbolic blocks) and note the
+    calls made to it outside graph execution"""
+    import functools
+
+    @functools.wraps(f)
+    def wrapper(*a, **k):
+        if RECORDING[0]:
+            # (a real one-element ndarray is dask's dtype-inference dummy, apply_infer_dtype's np.ones((1,)*ndim): noted apart)
+            CALLS.append((f.__name__, [tuple(x.shape) for x in a if hasattr(x, "shape") and not (isinstance(x, np.ndarray) and x.size == 1)]))
+        return f(*a, **k)
+
+    wrapper.__symx_kernel__ = True
+    return wrapper
 
 
 CUR = [None]  # the engine (symbolic or concrete replay) of the running instance body, for user kernels that state obligations
@@ -158,15 +191,22 @@ def source(w, E, tag, blocks, lo=1, shape=None, hi=None, chunks=None, dtype="f8"
             E.assume(sum(c) == shape[a])
         chunks.append(c)
     chunks = tuple(chunks)
-    arr = leaf(tag, tuple(sum(c) for c in chunks), dtype=dtype)
+    arr = leaf(tag, tuple(sum(c) for c in chunks), dtype=dtype, cls=RecArr)
     meta = np.empty((0,) * len(blocks), dtype=dtype)
     node = w.space.make(FAm.FromArray, arr, chunks, _symx_attrs=dict(_meta=meta, chunks=chunks, _name=tag))
     cs = [cumsum0(c) for c in chunks]
     dsk = {}
-    for g in itertools.product(*[range(m) for m in blocks]):
-        dsk[(tag,) + g] = arr[tuple(slice(c[i], c[i + 1]) for c, i in zip(cs, g))]
+    was, RECORDING[0] = RECORDING[0], False  # (the harness' own preparation of the blocks is not the library reading data)
+    try:
+        for g in itertools.product(*[range(m) for m in blocks]):
+            dsk[(tag,) + g] = arr[tuple(slice(c[i], c[i + 1]) for c, i in zip(cs, g))]
+    finally:
+        RECORDING[0] = was
     node.__dict__["_symx_layer"] = dsk
-    return Prog(node, arr, dsk)
+    # the NumPy meaning of programs is computed on a plain (non-recording) alias of the source
+    ref = SArr(arr.shape, arr._at, arr.dtype, arr.log, arr.kind, arr.struct)
+    ref._symx_token = arr._symx_token
+    return Prog(node, ref, dsk)
 
 
 def _layers(node, dsk=None, seen=None):
@@ -252,7 +292,7 @@ def scaled(x, factor=1.0):
     return x * factor
 
 
-scaled.__symx_kernel__ = True
+scaled = user_kernel(scaled)
 
 
 def p_elemwise(w, op, *ps, _dtype=None, _where=None, _out=None, **user_kwargs):
@@ -264,7 +304,7 @@ def p_elemwise(w, op, *ps, _dtype=None, _where=None, _out=None, **user_kwargs):
         node = w.space.make(M.Elemwise, op, _dtype, None, _where.node, _out.node, dict(user_kwargs) or None,
                             *[q.node if isinstance(q, Prog) else q for q in ps])
         refs = [q.ref if isinstance(q, Prog) else q for q in ps]
-        val = op(*refs, **user_kwargs)
+        val = getattr(op, "__wrapped__", op)(*refs, **user_kwargs)
         shape = node.shape
         vb, mb, ob = val.broadcast_to(shape), _where.ref.broadcast_to(shape), _out.ref.broadcast_to(shape)
         ref = SArr(shape, lambda idx: z3.If(mb._at(idx) != 0, vb._at(idx), ob._at(idx)))
@@ -275,7 +315,7 @@ def p_elemwise(w, op, *ps, _dtype=None, _where=None, _out=None, **user_kwargs):
         return Prog(node, ref, dsk)
     node = w.space.make(M.Elemwise, op, _dtype, None, True, None, dict(user_kwargs) or None, *[q.node if isinstance(q, Prog) else q for q in ps])
     refs = [q.ref if isinstance(q, Prog) else q for q in ps]
-    ref = op(*refs, **user_kwargs)
+    ref = getattr(op, "__wrapped__", op)(*refs, **user_kwargs)  # (the reference is not a call the library makes)
     dsk = {}
     for q in ps:
         if isinstance(q, Prog):
@@ -458,7 +498,7 @@ def _with_block_info(x, block_info=None):
     return x + off
 
 
-_with_block_info.__symx_kernel__ = True
+_with_block_info = user_kernel(_with_block_info)
 
 
 def _with_block_id(x, block_id=None):
@@ -470,7 +510,7 @@ def _with_block_id(x, block_id=None):
     return x + off
 
 
-_with_block_id.__symx_kernel__ = True
+_with_block_id = user_kernel(_with_block_id)
 
 
 def plus_one(b):
@@ -481,8 +521,8 @@ def times_three(b):
     return b * 3
 
 
-plus_one.__symx_kernel__ = True
-times_three.__symx_kernel__ = True
+plus_one = user_kernel(plus_one)
+times_three = user_kernel(times_three)
 
 
 def p_map(w, p, f):
@@ -490,7 +530,7 @@ def p_map(w, p, f):
     coll = w.fn(NC, "new_collection")(p.node)
     nd = len(coll.chunks)
     out = w.fn("dask_array._map_blocks", "map_blocks")(f, coll, dtype=np.dtype("f8"), meta=np.empty((0,) * nd))
-    return Prog(out.expr, f(p.ref), p.dsk)
+    return Prog(out.expr, getattr(f, "__wrapped__", f)(p.ref), p.dsk)  # (the reference is not a call the library makes)
 
 
 def p_map2(w, a, b, op=np.add):
@@ -536,7 +576,7 @@ def _with_block_info2(a, b, block_info=None):
     return a.sum(axis=0) + b + block_info[1]["array-location"][0][0]
 
 
-_with_block_info2.__symx_kernel__ = True
+_with_block_info2 = user_kernel(_with_block_info2)
 
 
 def p_map_blocks_drop(w, E, a, b):
@@ -894,7 +934,7 @@ def plus_one_ufunc(a):
     return a + 1
 
 
-plus_one_ufunc.__symx_kernel__ = True
+plus_one_ufunc = user_kernel(plus_one_ufunc)
 
 
 def _two_windows(w, E):
